@@ -122,3 +122,85 @@ Print Assumptions C18_write_ssa_complete.
 Print Assumptions C18_read_ssa_fault_at_offset.
 Print Assumptions C18_write_ttml_fault.
 Print Assumptions C18_write_ttml_complete.
+
+(* ---- "a single line exceeds what the reader can buffer" (audit follow-up; Kit/ScanLim.v, Proofs/ScanLimProofs.v,
+   Proofs/ScanLimReaders.v): [scan_lim max data counts] is the line scanner with bufio.Scanner's buffer limit
+   (bufio.MaxScanTokenSize = 65536 = [max_scan_token]: newScanner never calls scanner.Buffer); see C17.v for the exact
+   boundary and the one schedule-dependent case (a last line that exactly fills the buffer). ---- *)
+From Coq Require Import Lia.
+From Astisub Require Import Kit.ScanLim Proofs.ScanLimProofs Proofs.ScanLimReaders.
+
+(* the scanner: some line longer than the buffer -> ErrTooLong under every schedule, after delivering a strict prefix of
+   the lines *)
+Theorem C18_scanner_too_long : forall max data, Exists (fun l => (max < length l)%nat) (lines data) ->
+  exists j, (j < length (lines data))%nat /\ forall counts, scan_lim max data counts = (firstn j (lines data), true).
+Proof. exact scan_lim_long_line. Qed.
+(* ... the exact condition ([lim_overlong max data j]: line j is the first whose look-ahead exceeds the buffer, or a last
+   line longer than the buffer) *)
+Theorem C18_scanner_overlong : forall max data counts j, lim_overlong max data j ->
+  scan_lim max data counts = (firstn j (lines data), true).
+Proof. exact scan_lim_overlong. Qed.
+(* the three line-based readers return an error instead of a shorter cue list, for every schedule *)
+Theorem C18_too_long : forall max data counts, Exists (fun l => (max < length l)%nat) (lines data) ->
+  (exists e, read_srt_lines (fst (scan_lim max data counts)) (snd (scan_lim max data counts)) = Err e) /\
+  (exists e, read_vtt_lines (fst (scan_lim max data counts)) (snd (scan_lim max data counts)) = Err e) /\
+  (exists e, read_ssa_lines (fst (scan_lim max data counts)) (snd (scan_lim max data counts)) = Err e).
+Proof. exact read_lim_too_long. Qed.
+Theorem C18_too_long_exact : forall max data counts j, lim_overlong max data j ->
+  (exists e, read_srt_lines (fst (scan_lim max data counts)) (snd (scan_lim max data counts)) = Err e) /\
+  (exists e, read_vtt_lines (fst (scan_lim max data counts)) (snd (scan_lim max data counts)) = Err e) /\
+  (exists e, read_ssa_lines (fst (scan_lim max data counts)) (snd (scan_lim max data counts)) = Err e).
+Proof. exact read_lim_overlong. Qed.
+(* for EVERY input and schedule, the schedule-dependent boundary included: a reader that returns cues was given every
+   line, and returns the one-shot result on the whole document - never a truncation at the buffer limit *)
+Theorem C18_limit_success_means_complete : forall max data counts,
+  (forall l, read_srt_lines (fst (scan_lim max data counts)) (snd (scan_lim max data counts)) = Ok l ->
+             snd (scan_lim max data counts) = false /\ read_srt data = Ok l) /\
+  (forall d, read_vtt_lines (fst (scan_lim max data counts)) (snd (scan_lim max data counts)) = Ok d ->
+             snd (scan_lim max data counts) = false /\ read_vtt data = Ok d) /\
+  (forall d, read_ssa_lines (fst (scan_lim max data counts)) (snd (scan_lim max data counts)) = Ok d ->
+             snd (scan_lim max data counts) = false /\ read_ssa data = Ok d).
+Proof. exact read_lim_success_complete. Qed.
+(* non-vacuity at the real constant: a SubRip document whose text line has 65536 bytes (observed on the library:
+   ReadFromSRT / ReadFromWebVTT / ReadFromSSA return "astisub: scanning failed: bufio.Scanner: token too long") *)
+Definition C18_timing_line : str := [48;48;58;48;48;58;48;49;44;48;48;48;32;45;45;62;32;48;48;58;48;48;58;48;50;44;48;48;48]%N.
+Definition C18_long_srt : str := [49]%N ++ LF :: (C18_timing_line ++ LF :: (a_line 65536 ++ [LF])).
+Example C18_too_long_example : forall counts,
+  scan_lim max_scan_token C18_long_srt counts = ([[49]%N; C18_timing_line], true) /\
+  exists e, read_srt_lines (fst (scan_lim max_scan_token C18_long_srt counts)) (snd (scan_lim max_scan_token C18_long_srt counts)) = Err e.
+Proof.
+  intros counts.
+  assert (N1 : forallb (fun c => negb (is_brk c)) [49]%N = true) by reflexivity.
+  assert (N2 : forallb (fun c => negb (is_brk c)) C18_timing_line = true) by reflexivity.
+  assert (HO : lim_overlong max_scan_token C18_long_srt 2).
+  { unfold C18_long_srt. set (r2 := a_line 65536 ++ [LF]). set (r1 := C18_timing_line ++ LF :: r2).
+    apply (lo_later max_scan_token ([49]%N ++ LF :: r1) _ [49]%N r1 1%nat (need_lf [49]%N r1 N1));
+      [unfold max_scan_token; cbn [length]; lia | exact (split_lf [49]%N r1 N1) |].
+    unfold r1.
+    apply (lo_later max_scan_token (C18_timing_line ++ LF :: r2) _ C18_timing_line r2 0%nat (need_lf C18_timing_line r2 N2));
+      [unfold max_scan_token, C18_timing_line; cbn [length]; lia | exact (split_lf C18_timing_line r2 N2) |].
+    unfold r2. apply (lo_here max_scan_token _ _ (need_lf (a_line 65536) [] (nobrk_repeat _))).
+    unfold max_scan_token. rewrite a_line_length. lia. }
+  split.
+  - rewrite (scan_lim_overlong _ _ counts 2 HO). unfold C18_long_srt.
+    rewrite (lines_cons_lf [49]%N _ N1), (lines_cons_lf C18_timing_line _ N2). reflexivity.
+  - exact (proj1 (read_lim_overlong max_scan_token C18_long_srt counts 2 HO)).
+Qed.
+
+Print Assumptions C18_scanner_too_long.
+Print Assumptions C18_scanner_overlong.
+Print Assumptions C18_too_long.
+Print Assumptions C18_too_long_exact.
+Print Assumptions C18_limit_success_means_complete.
+(* EBU STL, strengthened after the fuel audit (notes/fuel.md, Proofs/FuelStl.v): the error of a failing stream / of an
+   end-of-file inside a block is a genuine one, never the out-of-fuel value Err EOther of the fuelled loop (which the
+   weaker statements C18_read_stl_fault / C18_read_stl_partial_block above would also accept) *)
+From Astisub Require Import Proofs.FuelStl.
+Theorem C18_read_stl_fault_genuine : forall ign data k counts,
+  exists e, read_stl_fail_at ign data k counts = Err e /\ e <> EOther.
+Proof. intros ign data k counts. exact (read_stl_fail_err_genuine ign (firstn k data) counts). Qed.
+Theorem C18_read_stl_partial_block_genuine : forall ign data j r,
+  length data = (1024 + 128 * j + r)%nat -> (0 < r < 128)%nat -> exists k, read_stl ign data = Err k /\ k <> EOther.
+Proof. exact read_stl_partial_block_genuine. Qed.
+Print Assumptions C18_read_stl_fault_genuine.
+Print Assumptions C18_read_stl_partial_block_genuine.
